@@ -17,11 +17,14 @@ ASSUMPTIONS = [
     "(every set, sparse or dense); Para and HexCode are non-empty ASCII texts of at most 1000 characters each",
     "remote state (min/max temperature, toggle flag, supported modes, separate-swing flag) is symbolic/enumerated: the obligations "
     "hold for every remote object, however it was constructed",
-    "capabilities (_resolve_capabilities, a loop over the wave list) and get_remote (file + json) are checked by the bounded native "
-    "stand-in only",
+    "capabilities: _resolve_capabilities is proved as a fold by induction (base: empty list; step: one loop iteration from every "
+    "reachable abstract state), with an IR key abstracted by what the function observes of it (first two characters, whether "
+    "characters 2..4 are digits and their value, the captured fan token in none/f0..f3, whether it contains 'd1'); keys with other "
+    "fan digits (the constructor raises KeyError on them) are outside the claim",
+    "get_remote (file + json + cache) is checked by the bounded native stand-in only",
 ]
-BOUNDED_PARTS = ["_resolve_capabilities / reported capabilities: generated IR sets (quick 300, thorough 10,000) on the real class against "
-                 "the fold specification; get_remote caching: native"]
+BOUNDED_PARTS = ["get_remote (loads a file, json, caches per id): native check only",
+                 "the capability fold is also exercised natively on generated IR sets (quick 300, thorough 10,000)"]
 ENUMERATED = ["toggle x state x mode x fan x swing x previous state = 480 request shapes (complete)", "unsupported mode: 5 modes x 16 "
               "supported subsets", "temperature, min, max: solver variables"]
 EXPLANATION = ("build_command / build_swing_command / SwitcherBreezeCommand executed from the AST on a remote whose IR map is "
@@ -36,6 +39,8 @@ def E(n):
 def interp_for(unit):
     ip = make_interp(contracts={})
     irmodel.install(ip)
+    from pyvc import capmodel
+    capmodel.install(ip)
     return ip
 
 
@@ -153,6 +158,69 @@ def units(tier):
             obs.append(Obligation(base + "/length_is_le16_of_byte_count", ctx, ip.equals(ob[1].attrs.get("length"), want, ctx)))
         return obs
     u["command_length"] = Unit("command_length", PROP, cmdlen, functions=[R + "SwitcherBreezeCommand.__init__", R + "SwitcherBreezeCommand._get_command_length"])
+
+    # ---- capabilities: _resolve_capabilities is a fold over the wave list; proved by induction -------------------------------
+    #   base: the state a constructor call on an empty list leaves;  step: one loop iteration from an ARBITRARY reachable state
+    from pyvc.capmodel import AbsKey, StoreLog, OneStep, LoopStepDone
+    from pyvc.interp import mark_preexisting
+    modes = list(Mode)
+    CODE = {"aa": Mode.AUTO, "ad": Mode.DRY, "aw": Mode.FAN, "ar": Mode.COOL, "ah": Mode.HEAT}   # the protocol's mode codes (statement of C15)
+    prefixes = list(CODE)
+    RC = R + "SwitcherBreezeRemote._resolve_capabilities"
+
+    def cap_base(ip, ctx):
+        obs = []
+        for rid, sep in (("ELEC7022", True), ("ZM079055", True), ("ZM079065", True), ("ZM079049", True), ("ELEC7001", False), ("", False)):
+            for onoff, toggle in ((1, True), (0, False), (2, False)):
+                r = ip.instantiate(cls(R + "SwitcherBreezeRemote"), [PyDict({"IRSetID": rid, "OnOffType": onoff, "IRWaveList": PyList([])})], {}, ctx)
+                base = f"{PROP}/capabilities/empty_set/{rid or 'noid'}_onoff{onoff}"
+                obs.append(Obligation(base + "/no_modes_no_range", ctx, ip.getattr(r, "supported_modes", ctx).items == [] and
+                                      ip.getattr(r, "min_temperature", ctx) == 100 and ip.getattr(r, "max_temperature", ctx) == -100))
+                obs.append(Obligation(base + "/toggle_flag_is_OnOffType_1", ctx, ip.getattr(r, "on_off_type", ctx) is toggle))
+                obs.append(Obligation(base + "/separate_swing_flag_is_membership_of_the_special_ids", ctx, ip.getattr(r, "separated_swing_command", ctx) is sep))
+                obs.append(Obligation(base + "/remote_id", ctx, ip.getattr(r, "remote_id", ctx) == rid))
+                obs.append(Obligation(base + "/empty_wave_map", ctx, isinstance(r.attrs.get("_ir_wave_map"), PyDict) and not r.attrs["_ir_wave_map"].d))
+        return obs
+    u["capabilities_base"] = Unit("capabilities_base", PROP, cap_base, functions=[R + "SwitcherBreezeRemote.__init__", RC])
+
+    for subset in range(32):
+        def cap_step(ip, ctx, subset=subset):
+            present = [m for i, m in enumerate(modes) if subset >> i & 1]
+            carried = ([None] + present)[ctx.fork(len(present) + 1)]        # the loop's local `mode` from the previous wave
+            sep = bool(ctx.fork(2))
+            toggle = bool(ctx.fork(2)) if subset == 0 else False      # the loop never looks at the toggle flag
+            r = ip.instantiate(cls(R + "SwitcherBreezeRemote"), [PyDict({"IRSetID": "ELEC7022" if sep else "REMOTE01", "OnOffType": 1 if toggle else 0,
+                                                                         "IRWaveList": PyList([])})], {}, ctx)
+            mn = sym_int(ctx, "min_before", -100, 100)
+            mx = sym_int(ctx, "max_before", -100, 100)
+            feats = PyDict({m: PyDict({"swing": z3.Bool(f"swing_{m.name}"), "fan_levels": PySet(), "temperature_control": z3.Bool(f"tc_{m.name}")})
+                            for m in present})
+            log = StoreLog()
+            r.attrs.update({"_min_temp": mn, "_max_temp": mx, "_modes_features": feats, "_ir_wave_map": log})
+            key = AbsKey("key", ctx, prefixes)
+            para = Seq('str', [])
+            wave = PyDict({"Key": key, "Para": "P-of-this-wave", "HexCode": "H-of-this-wave"})
+            ir_set = PyDict({"IRSetID": "x", "OnOffType": 0, "IRWaveList": OneStep(wave, {"mode": carried})})
+            try:
+                ip.call_function(func(RC), [r, ir_set], {}, ctx)
+                return [Obligation(f"{PROP}/capabilities/step/loop_reached", ctx, False)]
+            except LoopStepDone:
+                pass
+            base = f"{PROP}/capabilities/step/modes_{''.join(m.name[0] for m in present) or 'none'}/carried_{carried.name if carried else 'None'}"
+            k = ctx.choose([key.pfx == i for i in range(len(prefixes) + 1)])
+            want_modes = set(present) | ({CODE[prefixes[k]]} if k < len(prefixes) else set())
+            got_modes = set(r.attrs["_modes_features"].d.keys())
+            want_mn = simp(z3.If(z3.And(key.tdig, key.tval < mn), key.tval, mn))
+            want_mx = simp(z3.If(z3.And(key.tdig, key.tval > mx), key.tval, mx))
+            obs = [Obligation(base + "/modes_are_previous_plus_the_key_prefix_mode", ctx, got_modes == want_modes, note=f"{[m.name for m in got_modes]}"),
+                   Obligation(base + "/min_is_folded_over_two_digit_fields", ctx, ip.equals(r.attrs["_min_temp"], want_mn, ctx)),
+                   Obligation(base + "/max_is_folded_over_two_digit_fields", ctx, ip.equals(r.attrs["_max_temp"], want_mx, ctx)),
+                   Obligation(base + "/flags_unchanged", ctx, r.attrs.get("_on_off_type") is toggle and r.attrs.get("_separated_swing_command") is sep),
+                   Obligation(base + "/wave_stored_under_its_key_with_its_codes", ctx,
+                              len(log.stores) == 1 and log.stores[0][0] is key and isinstance(log.stores[0][1], PyDict) and
+                              log.stores[0][1].d == {"Para": "P-of-this-wave", "HexCode": "H-of-this-wave"})]
+            return obs
+        u[f"capabilities_step_{subset}"] = Unit(f"capabilities_step_{subset}", PROP, cap_step, functions=[RC], max_paths=200000)
 
     def canary(ip, ctx):
         remote, W, mint, maxt = make_remote(ip, ctx, False, list(Mode))
